@@ -248,6 +248,30 @@ def cold_first_scenario(rng, g):
 def gen_c09(seed, index):
     prof = {"name": "C09", "lp": ALL_LP, "np": [None, None] + G.NP_KINDS,
             "weights": {"fit": 1, "pfit": 3, "query": 1, "add": 1.5, "rem": 1, "warm": 0.5}, "end_query": False}
+    if index % 10 == 9:
+        # every observed arm far below zero, the live bandit predicts, then an arm arrives that is never observed (its
+        # expectation 0 is the unique maximum for the deterministic policies): nothing a prediction left behind may
+        # outlive the arm change
+        rng, g = _gen(seed, index, dict(prof, name="C09n", np=[None], lp=["ucb", "greedy", "linucb", "lingreedy", "ucb", "softmax"]))
+        if "eps" in g.cfg["lp"]:
+            g.cfg["lp"]["eps"] = 0.0
+        d, r, c = g.batch(rng.choice([4, 8, 12]), allow_unknown=False)
+        d = [g.arms[i % len(g.arms)] for i in range(len(d))]
+        r = [-50 - abs(x) for x in r]
+        ops = [{"op": "fit", "d": d, "r": r, "c": c}]
+        g.stored = list(c or [])
+        g.fitted = True
+        g.ops = []
+        g.op_query("pred")
+        if not g.spare:
+            g.spare = ["zz-late"] if isinstance(g.arms[0], str) else [987]
+        g.op_add()
+        if rng.random() < 0.3:
+            g.op_query("pexp")
+        ops += g.ops
+        g.ops = []
+        g.op_query("pexp")
+        return {"cfg": g.cfg, "ops": ops, "queries": g.ops}
     rng, g = _gen(seed, index, prof)
     if g.npk is None and g.lpk in G.WARM_OK and len(g.arms) >= 2 and rng.random() < 0.3:
         ops = cold_first_scenario(rng, g)
